@@ -4,7 +4,8 @@
 Ops (tuples):
   ("L", text)                         inbound line through tasks.add_job(gateway.logic, text)
   ("S", node, child, vtype, value, ack)   gateway.set_child_value(...)
-  ("U", nids, fw_type, fw_ver, image|None) tasks.ota.make_update(...)
+  ("U", nids, fw_type, fw_ver, image|None) Gateway.update_fw(...) with the image written as an Intel HEX file
+  ("F", nids, fw_type, fw_ver, text|None)  Gateway.update_fw(...) with a file of this content (None: no such file)
   ("T", secs)                         set the clock used by the time handler
   ("M", 0|1)                          gateway.metric
   ("K",)                              periodic save tick (persistence.save_sensors())
@@ -128,6 +129,71 @@ class Obs:
         return f"sent={sent} cb={cbs} exc={self.exc or 'none'} ns={self.need_save} st={self.state} ota={self.ota}"
 
 
+_HEX_TEXT = {}
+
+
+def fw_file_text(image):
+    """The Intel HEX file the intelhex library writes for `image` (bytes), as text."""
+    if image not in _HEX_TEXT:
+        import io
+        from intelhex import IntelHex
+        ihex = IntelHex()
+        ihex.frombytes(image)
+        buf = io.StringIO()
+        ihex.write_hex_file(buf)
+        if len(_HEX_TEXT) > 512:
+            _HEX_TEXT.clear()
+        _HEX_TEXT[image] = buf.getvalue()
+    return _HEX_TEXT[image]
+
+
+def goes_through_file(image):
+    return isinstance(image, bytes) and len(image) <= 8192
+
+
+def file_as_update(op):
+    """An ("F", nids, type, version, text | None) op — Gateway.update_fw with a file of that content (None:
+    an unreadable path) — as the ("U", ...) op it amounts to, judged with the intelhex library itself, or
+    None when the call must have no effect (unreadable, rejected by the library, no data)."""
+    _, nids, fwt, fwv, text = op
+    if text is None:
+        return None
+    import io
+    from intelhex import IntelHex, IntelHexError
+    try:
+        ihex = IntelHex()
+        ihex.fromfile(io.StringIO(text), format="hex")
+        data = ihex.tobinstr()
+    except (IntelHexError, TypeError, ValueError):
+        return None
+    if not data:
+        return None
+    return ("U", nids, fwt, fwv, bytes(data))
+
+
+def real_update_file(gw, nids, fwt, fwv, text):
+    """Gateway.update_fw with a firmware file of this content (None: a path that does not exist)."""
+    import asyncio
+    fd, path = tempfile.mkstemp(prefix="verif-fw-", suffix=".hex")
+    with os.fdopen(fd, "w", encoding="utf-8", newline="") as fh:
+        fh.write(text or "")
+    if text is None:
+        os.unlink(path)
+    try:
+        if asyncio.iscoroutinefunction(gw.update_fw):
+            loop = asyncio.new_event_loop()
+            try:
+                loop.run_until_complete(gw.update_fw(nids, fwt, fwv, fw_path=path))
+                loop.run_until_complete(loop.shutdown_default_executor())
+            finally:
+                loop.close()
+        else:
+            gw.update_fw(nids, fwt, fwv, fw_path=path)
+    finally:
+        if text is not None:
+            os.unlink(path)
+
+
 def real_update_fw(gw, nids, fwt, fwv, image):
     """A firmware update requested the way a user does it: Gateway.update_fw -> Tasks.update_fw -> load_fw
     (Intel HEX file written with the intelhex library) -> OTAFirmware.make_update.  An image that is not a
@@ -135,17 +201,14 @@ def real_update_fw(gw, nids, fwt, fwv, image):
     import asyncio
     path = None
     if image is not None:
-        if not (isinstance(image, bytes) and len(image) <= 8192):
+        if not goes_through_file(image):
             gw.tasks.ota.make_update(nids, fwt, fwv, image)
             return
-        from intelhex import IntelHex
-        ihex = IntelHex()
-        ihex.frombytes(image)
+        # an image of no bytes is a syntactically valid file without data (just the end-of-file record):
+        # update_fw must treat it as "no firmware" and do nothing
         fd, path = tempfile.mkstemp(prefix="verif-fw-", suffix=".hex")
-        with os.fdopen(fd, "w", encoding="utf-8") as fh:
-            # an image of no bytes is a syntactically valid file without data (just the end-of-file
-            # record): update_fw must treat it as "no firmware" and do nothing
-            ihex.write_hex_file(fh)
+        with os.fdopen(fd, "w", encoding="utf-8", newline="") as fh:
+            fh.write(fw_file_text(image))
     try:
         if asyncio.iscoroutinefunction(gw.update_fw):
             loop = asyncio.new_event_loop()
@@ -294,6 +357,9 @@ class RealGW:
                 _, nids, fwt, fwv, image = op
                 real_update_fw(self.gw, list(nids) if isinstance(nids, (list, tuple)) else nids,
                                fwt, fwv, image)
+            elif kind == "F":
+                _, nids, fwt, fwv, text = op
+                real_update_file(self.gw, list(nids), fwt, fwv, text)
             elif kind == "T":
                 self.clock = op[1]
             elif kind == "M":
@@ -362,11 +428,16 @@ def op_wire(op):
     if k == "U":
         _, nids, fwt, fwv, image = op
         nid = ",".join(map(str, nids)) if nids else "-"
-        if image is not None and len(image) == 0:
-            # a firmware file without data: Tasks.update_fw returns before make_update; in the model that
-            # is an update that names no node and brings no image (a no-op for every state)
-            return f"U - {fwt} {fwv} -"
-        return f"U {nid} {fwt} {fwv} " + ("-" if image is None else (image.hex() or "e"))
+        if image is None:
+            return f"UF {nid} {fwt} {fwv} -"           # update_fw without a path
+        if goes_through_file(image):
+            # the model is given the text of the file the real call reads (Model/UpdateFw.lean)
+            return f"UF {nid} {fwt} {fwv} " + enc_str(fw_file_text(image))
+        return f"U {nid} {fwt} {fwv} " + (image.hex() or "e")
+    if k == "F":
+        _, nids, fwt, fwv, text = op
+        nid = ",".join(map(str, nids)) if nids else "-"
+        return f"UF {nid} {fwt} {fwv} " + ("!" if text is None else enc_str(text))
     if k == "T":
         return f"T {op[1]}"
     if k == "M":
@@ -531,7 +602,10 @@ def gen_history(rng, version, n, persist=False, ota=True, sleep=True, malformed=
             nids = [known_node() for _ in range(rng.choice([1, 1, 2]))]
             fwt, fwv = rng.choice([(1, 1), (1, 2), (2, 1), (65535, 65535), (70000, 1), (1, -1)])
             img = rng.choice(images) if rng.random() < 0.8 else rng.choice([None, None, None, b""])
-            hist.append(("U", nids, fwt, fwv, img))
+            if img and rng.random() < 0.25:
+                hist.append(("F", nids, fwt, fwv, damaged_file(rng, img)))
+            else:
+                hist.append(("U", nids, fwt, fwv, img))
         elif kind == "stream":
             node = known_node()
             hist.append(("L", gen_stream(rng, const, node)))
@@ -581,6 +655,30 @@ def pending_pair_burst(rng, version, hist):
         out.insert(pos, op)
         pos = rng.randrange(pos + 1, min(len(out), pos + 3) + 1)
     return out
+
+
+def damaged_file(rng, image):
+    """Firmware files a user can name: the good file, an unreadable path, and the good file damaged."""
+    text = fw_file_text(image)
+    lines = text.split("\n")
+    r = rng.random()
+    if r < 0.15:
+        return text
+    if r < 0.3:
+        return None                                           # no such file
+    if r < 0.4:
+        return rng.choice(["", "\n", "hello world\n", ":00000001FF\n", ":0000000000\n", "\ufeff" + text])
+    if r < 0.55:
+        k = rng.randrange(1, len(text))
+        return text[:k] + rng.choice("0123456789ABCDEFG:xz \n") + text[k + 1:]      # one character changed
+    if r < 0.7:
+        return text[:rng.randrange(len(text))]                                      # truncated
+    if r < 0.8:
+        return "\n".join(lines[:-2]) + "\n"                                        # end-of-file record missing
+    if r < 0.9:
+        return text.replace("\n", "\r\n") if rng.random() < 0.5 else text.lower()
+    k = rng.randrange(len(lines))
+    return "\n".join(lines[:k] + [lines[rng.randrange(len(lines))]] + lines[k:])    # a record twice / reordered
 
 
 def fw_hex(*words):
